@@ -51,6 +51,14 @@ fn shapes(ctx: &mut Context) -> Vec<(&'static str, Node)> {
     v.push(("sphere", ctx.sub(r3, 0.7).unwrap()));
     // a half-plane far from zero almost everywhere: whole tiles are filled at depth 0
     v.push(("plane", ctx.add(x, 0.31).unwrap()));
+    // partial functions: the interval of a tile that straddles the domain boundary is the NaN interval (undecided, never a fill)
+    let xs = ctx.add(x, 0.3).unwrap();
+    let sq = ctx.sqrt(xs).unwrap();
+    v.push(("sqrt-domain", ctx.sub(sq, 0.6).unwrap()));
+    let ys = ctx.add(y, 0.5).unwrap();
+    let l = ctx.ln(ys).unwrap();
+    let c = ctx.sub(r, 0.45).unwrap();
+    v.push(("ln-min", ctx.min(l, c).unwrap()));
     v
 }
 
@@ -164,7 +172,7 @@ pub fn render2d(thorough: bool) -> Report {
     let mut r = Report::new("render2d");
     run_all(&mut r, thorough, None);
     r.distinct = r.cases;
-    r.space = "5 shapes (circle, box, a CSG of min/max with a sine band, a z-dependent sphere, a half-plane) x image sizes incl. non-square, non-multiples of the tile size and 1x1 x tile-size lists {default, [8], [16,4], [32,8,2], [64,16,4,1], [6,3]} x 3 view transforms x slice heights x {fills allowed, pixel-perfect} x {VM, JIT} x {no thread pool, rayon}; every pixel compared with Context::eval at cfg.mat() * (i, j): inside flag, fill sign and (pixel-perfect or unfilled) value, with a band of 2e-5 relative around zero / the value".into();
+    r.space = "7 shapes (circle, box, a CSG of min/max with a sine band, a z-dependent sphere, a half-plane, two with partial functions whose domain boundary crosses tiles: sqrt(x+0.3)-0.6, min(ln(y+0.5), circle)) x image sizes incl. non-square, non-multiples of the tile size and 1x1 x tile-size lists {default, [8], [16,4], [32,8,2], [64,16,4,1], [6,3]} x 3 view transforms x slice heights x {fills allowed, pixel-perfect} x {VM, JIT} x {no thread pool, rayon}; every pixel compared with Context::eval at cfg.mat() * (i, j): inside flag, fill sign and (pixel-perfect or unfilled) value, with a band of 2e-5 relative around zero / the value".into();
     r
 }
 
